@@ -87,7 +87,14 @@ class SysInterp(Interp):
         if t[0] == "fn":
             name, args = t[1], t[2]
             if name in ("any_over", "all_over"):
-                return self.truth_of(args[0])
+                a0 = args[0]
+                if a0[0] == "k":
+                    return bool(a0[1])
+                if a0[0] != "fn" and self.leaf_names(a0) and not self.subject(a0) - {s for s in self.subject(a0) if s[0] == "flow"}:
+                    # np.any / np.all of raw flow or stock data: free symbols are not all zero (the identically-zero case is a
+                    # separate scenario with constant-zero arrays)
+                    return True
+                return self.truth_of(a0)
             if name == "isnan":
                 sub = self.subject(args[0])
                 if not sub:
@@ -95,6 +102,9 @@ class SysInterp(Interp):
                 return any(self.cls_of(s) == "nan" for s in sub)
             if name in ("lt", "le", "gt", "ge", "eq", "ne"):
                 a, b = args
+                if a[0] == "k" and b[0] == "k" and all(isinstance(x[1], (int, float)) for x in (a, b)):
+                    import operator as _op
+                    return bool(getattr(_op, name)(a[1], b[1]))
                 for side in (a, b):
                     if self.stale and self.is_tolerance(side):
                         old = sorted(n for n in self.leaf_names(side) if n in self.stale)
@@ -151,7 +161,7 @@ class SysInterp(Interp):
         kinds = {s[0] for s in subjects}
         if kinds == {"bal"}:
             # magnitude |balance| (max over the process / all processes) against the tolerance
-            big = "bad" in classes
+            big = "bad" in classes or ("tiny" in classes and other[0] == "k" and other[1] == 0)
             return {"lt": not big, "le": not big, "gt": big, "ge": big, "eq": False, "ne": True}[name]
         if kinds == {"flow"}:
             neg_tol = self.is_negated(other)
@@ -171,6 +181,8 @@ class SysInterp(Interp):
 
     def data_truth(self, v):
         t = v.term
+        if t == ("sym", "tol"):
+            return True         # the explicit tolerance of the scenarios is a positive number
         r = self.truth_of(t)
         if r is None:
             raise AnalysisAbort(f"branch on data that the magnitude-class domain cannot decide: {NP.show(t)[:200]} in {self.stack[-1] if self.stack else '?'}")
@@ -209,7 +221,7 @@ GRAPHS = [
 ]
 
 
-def build_system(w: World, graph):
+def build_system(w: World, graph, zero_flows=()):
     prog, it = w.prog, w.it
     procs_n, flows_n, stocks_n = graph
     Process = prog.cls("Process")
@@ -224,6 +236,9 @@ def build_system(w: World, graph):
         name = base if k == 0 else f"{base} #{k + 1}"
         leaf = f"f{len(flows)}"
         flows[name] = w.array(leaf, tuple(dims), cls=Flow, from_process=procs[fr], to_process=procs[to])
+        if len(flows) - 1 in zero_flows:       # a flow that is (still) identically zero, as every flow is right after the system is built
+            v = flows[name].f["values"]
+            flows[name].f["values"] = NP.AArr(v.axes, ("k", 0), NP.Buf("zero flow"))
         flows[name].f["name"] = name
         leafs[name] = (leaf, tuple(dims), fr, to)
     stocks = {}
@@ -264,7 +279,7 @@ def balances_of(it, mfa):
     return it.call_method(mfa, balance_method(it.p))
 
 
-def oracle_balances(w: World, graph):
+def oracle_balances(w: World, graph, zero_flows=()):
     procs_n, flows_n, stocks_n = graph
     contrib = {p: [] for p in procs_n}       # (sign, leaf name, dims)
     n = 0
@@ -286,29 +301,35 @@ def oracle_balances(w: World, graph):
         common = [l for l in cs[0][2] if all(l in c[2] for c in cs)]
         terms = []
         for sign, leaf, dims in cs:
+            if leaf in {f"f{k}" for k in zero_flows}:
+                continue        # contributes the value 0 - but its dimensions still count for the common ones
             t = t_in(leaf, [tuple(w.items(l)) for l in dims])
             t = t_sum({vkey(w.items(l)) for l in dims if l not in common}, t)
             terms.append(t if sign > 0 else t_neg(t))
-        out[p] = (tuple(common), t_add(*terms))
+        out[p] = (tuple(common), t_add(*terms) if terms else ("k", 0))
     return out
 
 
 def balance_cases(prog, rep, fails):
     rid = "C02.balance-contributions"
-    for gi, graph in enumerate(GRAPHS):
+    variants = [(gi, graph, ()) for gi, graph in enumerate(GRAPHS)]
+    variants += [(gi, graph, (k,)) for gi, graph in enumerate(GRAPHS) for k in range(len(graph[1])) if len(graph[1]) > 1]
+    for gi, graph, zero in variants:
         w = World(prog)
         w.it = SysInterp(prog)
         inp = {"processes": graph[0], "flows": [list(f) for f in graph[1]], "stocks": [list(s) for s in graph[2]]}
-        kind, r = run_guarded(lambda: build_system(w, graph))
+        if zero:
+            inp["identically_zero_flows"] = [list(graph[1][k]) for k in zero]
+        kind, r = run_guarded(lambda: build_system(w, graph, zero))
         if kind != "ok":
             raise AnalysisError(f"could not build the abstract system {inp}: {r}")
         mfa, leafs = r
         kind, bal = run_guarded(lambda: balances_of(w.it, mfa))
         rep.evaluations += 1
-        exp = oracle_balances(w, graph)
+        exp = oracle_balances(w, graph, zero)
         if kind != "ok" or not isinstance(bal, dict):
             for p in graph[0]:
-                rep.oblige(rid, False, where="MFASystem._get_mass_balance", what=f"{inp} process {p}", distinct=(rid, gi, p))
+                rep.oblige(rid, False, where="MFASystem._get_mass_balance", what=f"{inp} process {p}", distinct=(rid, gi, zero, p))
             note(fails, rid, "MFASystem._get_mass_balance", inp, f"the balance computation ended with {kind}: {getattr(r if kind == 'ok' else bal, 'msg', bal)} "
                  f"on a valid system ({'no stocks; ' if not graph[2] else ''}{'a process without flows; ' if any(not any(p in f[:2] for f in graph[1]) for p in graph[0]) else ''})")
             continue
@@ -327,7 +348,7 @@ def balance_cases(prog, rep, fails):
                                       f"{NP.show(term)[:300]} (inflows - outflows - stock change, mirror on sysenv, summed by label)")
                 elif w.invariant(b):
                     ok, msg = False, f"balance of '{p}': {w.invariant(b)}"
-            rep.oblige(rid, ok, where="MFASystem._get_mass_balance", what=f"{inp} process {p}", distinct=(rid, gi, p))
+            rep.oblige(rid, ok, where="MFASystem._get_mass_balance", what=f"{inp} process {p}", distinct=(rid, gi, zero, p))
             if not ok:
                 note(fails, rid, "MFASystem._get_mass_balance", dict(inp, process=p), msg)
 
@@ -347,6 +368,9 @@ def verdict_worker(prog, rep, job):
             for raise_error in (True, False):
                 for tol in ("default", "explicit"):
                     verdict_case(prog, rep, fails, gi, graph, assign, raise_error, tol)
+                # tolerance=0 given explicitly: a balance that is tiny (within every positive tolerance) but not zero is a violation
+                if "bad" not in assign:
+                    verdict_case(prog, rep, fails, gi, graph, tuple("tiny" if c == "nan" else c for c in assign), raise_error, "zero")
         else:
             flow_case(prog, rep, fails, gi, graph, assign)
     return fails
@@ -373,6 +397,8 @@ def verdict_case(prog, rep, fails, gi, graph, assign, raise_error, tol):
     kw = dict(raise_error=raise_error)
     if tol == "explicit":
         kw["tolerance"] = SymScalar(("sym", "tol"))
+    if tol == "zero":
+        kw["tolerance"] = 0
     it.log.clear()
     kind, r = run_guarded(lambda: it.call_method(mfa, "check_mass_balance", **kw))
     rep.evaluations += 1
@@ -588,6 +614,10 @@ def run(prog, rep):
 
 
 MUTANTS = [
+    {"name": "explicit-zero-tolerance-replaced-by-default", "path": MOD, "find": "        if tolerance is None:\n            tolerance = 100 * self._absolute_float_precision",
+     "replace": "        tolerance = tolerance or 100 * self._absolute_float_precision"},
+    {"name": "all-zero-flows-skipped", "path": MOD, "find": "        for flow in self.flows.values():\n            contributions[flow.from_process.name]",
+     "replace": "        for flow in self.flows.values():\n            if not np.any(flow.values):\n                continue\n            contributions[flow.from_process.name]"},
     {"name": "tolerance-cached-on-first-check", "path": MOD, "find": "    @property\n    def _absolute_float_precision(self)", "replace": "    from functools import cached_property\n\n    @cached_property\n    def _absolute_float_precision(self)"},
     {"name": "D6-nan-reported-as-success", "path": MOD, "find": "if not e <= tolerance}", "replace": "if e > tolerance}"},
     {"name": "D7-max-over-empty-stocks", "path": MOD, "find": "for s in self.stocks.values()], default=0.0)", "replace": "for s in self.stocks.values()])"},
@@ -595,7 +625,7 @@ MUTANTS = [
     {"name": "sign-flipped-at-target", "path": MOD, "find": "contributions[flow.to_process.name].append(flow)", "replace": "contributions[flow.to_process.name].append(-flow)"},
     {"name": "sysenv-mirror-dropped", "path": MOD, "find": '            contributions["sysenv"].append(stock_change)\n', "replace": ""},
     {"name": "stock-change-sign", "path": MOD, "find": "            stock_change = stock.inflow - stock.outflow", "replace": "            stock_change = stock.outflow - stock.inflow"},
-    {"name": "threshold-ge (equivalent on classes)", "path": MOD, "find": "if not e <= tolerance}", "replace": "if not e < tolerance}", "expect": "survive"},
+    {"name": "threshold-strict (differs at tolerance=0 with an exactly balanced process)", "path": MOD, "find": "if not e <= tolerance}", "replace": "if not e < tolerance}"},
     {"name": "raise-switch-inverted", "path": MOD, "find": "        if raise_error:\n            raise ValueError(message)", "replace": "        if not raise_error:\n            raise ValueError(message)"},
     {"name": "failed-processes-not-reported-when-warning", "path": MOD, "find": "            self._error_or_warning(message, raise_error)\n        else:\n            logging.info(f\"Success",
      "replace": "            if raise_error:\n                self._error_or_warning(message, raise_error)\n        else:\n            logging.info(f\"Success"},
